@@ -9,6 +9,7 @@ package netceptor
 
 import (
 	"context"
+	"encoding/json"
 	"sync"
 	"time"
 )
@@ -197,4 +198,28 @@ func (s *Netceptor) VerifConnectionIDs() []string {
 	}
 
 	return out
+}
+
+// VerifDecodeRoutingUpdate unmarshals a routing-update body exactly as runProtocol does
+// (json.Unmarshal into a fresh routingUpdate) and returns the fields; Connections keeps its
+// nil/non-nil distinction.
+func VerifDecodeRoutingUpdate(body []byte) (VerifRoutingUpdate, error) {
+	ri := &routingUpdate{}
+	err := json.Unmarshal(body, ri)
+
+	return VerifRoutingUpdate{
+		NodeID: ri.NodeID, UpdateID: ri.UpdateID, UpdateEpoch: ri.UpdateEpoch, UpdateSequence: ri.UpdateSequence,
+		Connections: ri.Connections, ForwardingNode: ri.ForwardingNode, SuspectedDuplicate: ri.SuspectedDuplicate,
+	}, err
+}
+
+// VerifDecodeServiceAd unmarshals a service-advertisement body exactly as
+// handleServiceAdvertisement does (json.Unmarshal into a fresh serviceAdvertisementFull).
+// The first result is the embedded pointer as the decoder left it (nil when no field of the
+// embedded struct was present).
+func VerifDecodeServiceAd(body []byte) (*ServiceAdvertisement, bool, error) {
+	si := &serviceAdvertisementFull{}
+	err := json.Unmarshal(body, si)
+
+	return si.ServiceAdvertisement, si.Cancel, err
 }
